@@ -47,8 +47,7 @@ func c03Profiles(tier Tier) []*explore.Profile {
 	product := &explore.Profile{
 		Name: "role-product", EnvCfg: ledgerEnv(2), Depth: 1, Deadline: tierDeadline(tier), Oracles: orc,
 		Seeds: func(env *world.Env) []explore.SeedState {
-			base := uni.Seed(env, "mixed")
-			b := &uni.Builder{Env: env, W: base}
+			b := uni.SeedBuilder(env, "mixed")
 			b.Must(uni.UnSetRole(uni.A0, uni.S, uni.NFTRoles...))
 			b.Must(uni.UnSetRole(uni.A0, uni.F, vmcommon.ESDTRoleLocalMint, vmcommon.ESDTRoleLocalBurn))
 			clean := b.W
@@ -76,7 +75,7 @@ func c03Profiles(tier Tier) []*explore.Profile {
 						sb.Must(uni.SetRole(uni.A0, uni.R, r...))
 						sb.Must(uni.SetRole(uni.A0, uni.F1, r...))
 					}
-					out = append(out, explore.SeedState{Name: fmt.Sprintf("roles-%02x-other-%02x", m, om), W: sb.W})
+					out = append(out, explore.SeedState{Name: fmt.Sprintf("roles-%02x-other-%02x", m, om), W: sb.W, Legs: sb.Legs, Failed: sb.Failed})
 				}
 			}
 			return out
@@ -92,9 +91,9 @@ func c03Profiles(tier Tier) []*explore.Profile {
 		Seeds: func(env *world.Env) []explore.SeedState {
 			out := seedsOf("mixed", "handover")(env)
 			// a second collection whose create-role holder has never created anything
-			b := &uni.Builder{Env: env, W: uni.Seed(env, "mixed")}
+			b := uni.SeedBuilder(env, "mixed")
 			b.Must(uni.SetRole(uni.B0, uni.R, uni.NFTRoles...))
-			return append(out, explore.SeedState{Name: "mixed+R-never-created", W: b.W})
+			return append(out, explore.SeedState{Name: "mixed+R-never-created", W: b.W, Legs: b.Legs, Failed: b.Failed})
 		},
 		Menu: func(w *world.World) []world.Action {
 			acts := undisciplinedRoleMenu(w, o)
@@ -182,9 +181,9 @@ func c05Profiles(tier Tier) []*explore.Profile {
 	kv := &explore.Profile{
 		Name: "kv", EnvCfg: ledgerEnv(2), Depth: 1, Deadline: tierDeadline(tier), Oracles: orc,
 		Seeds: func(env *world.Env) []explore.SeedState {
-			b := &uni.Builder{Env: env, W: uni.Seed(env, "mixed")}
+			b := uni.SeedBuilder(env, "mixed")
 			b.Must(uni.Call(uni.A0, uni.A0, vmcommon.BuiltInFunctionSaveKeyValue, []byte("k"), []byte("vv"), []byte("ELRONx"), []byte("y")))
-			return []explore.SeedState{{Name: "mixed+kv", W: b.W}}
+			return []explore.SeedState{{Name: "mixed+kv", W: b.W, Legs: b.Legs, Failed: b.Failed}}
 		},
 		Menu: func(w *world.World) []world.Action { return kvMenu(w, tier) },
 	}
@@ -248,6 +247,41 @@ func kvMenu(w *world.World, tier Tier) []world.Action {
 		acts = append(acts, uni.Call(uni.A0, uni.A0, vmcommon.BuiltInFunctionSaveKeyValue, []byte("j"), []byte("1"), []byte("i"), []byte("2"), k))
 	}
 	acts = append(acts, uni.Call(uni.A0, uni.A0, vmcommon.BuiltInFunctionSaveKeyValue))
+	// the key in every pair position of calls with 3..6 pairs (harmless keys elsewhere)
+	filler := func(i int) [][]byte { return [][]byte{[]byte{'j', byte('0' + i)}, []byte("1")} }
+	for _, k := range keys {
+		for _, v := range [][]byte{{}, []byte("v")} {
+			for pairs := 3; pairs <= 6; pairs++ {
+				for pos := 0; pos < pairs; pos++ {
+					if pos < 2 && pairs > 3 {
+						continue
+					}
+					var args [][]byte
+					for i := 0; i < pairs; i++ {
+						if i == pos {
+							args = append(args, k, v)
+						} else {
+							args = append(args, filler(i)...)
+						}
+					}
+					acts = append(acts, uni.Call(uni.A0, uni.A0, vmcommon.BuiltInFunctionSaveKeyValue, args...))
+				}
+			}
+		}
+	}
+	// the same key listed several times in one call (stored: k=vv, n absent), adjacent or not; the
+	// last listed value decides, also when it equals what was stored before the call
+	for _, k := range [][]byte{[]byte("k"), []byte("n")} {
+		for _, x := range values {
+			for _, y := range values {
+				acts = append(acts, uni.Call(uni.A0, uni.A0, vmcommon.BuiltInFunctionSaveKeyValue, k, x, k, y))
+				acts = append(acts, uni.Call(uni.A0, uni.A0, vmcommon.BuiltInFunctionSaveKeyValue, k, x, []byte("j"), []byte("1"), k, y))
+				for _, z := range values {
+					acts = append(acts, uni.Call(uni.A0, uni.A0, vmcommon.BuiltInFunctionSaveKeyValue, k, x, k, y, k, z))
+				}
+			}
+		}
+	}
 	return acts
 }
 
@@ -346,7 +380,7 @@ func c08Profiles(tier Tier) []*explore.Profile {
 		Seeds: func(env *world.Env) []explore.SeedState {
 			b := uni.NewBuilder(env)
 			b.Must(uni.SetRole(uni.A0, uni.S, uni.NFTRoles...))
-			return []explore.SeedState{{Name: "roles-only", W: b.W}}
+			return []explore.SeedState{{Name: "roles-only", W: b.W, Legs: b.Legs, Failed: b.Failed}}
 		},
 		Menu: func(w *world.World) []world.Action {
 			if w.Ghost.Highest[tS] == 0 {
@@ -377,7 +411,7 @@ func c08Profiles(tier Tier) []*explore.Profile {
 				if i == 1 {
 					b.Must(uni.SetRole(uni.B0, uni.S, vmcommon.ESDTRoleNFTAddURI, vmcommon.ESDTRoleNFTUpdateAttributes))
 				}
-				out = append(out, explore.SeedState{Name: fmt.Sprintf("created-%d", i), W: b.W})
+				out = append(out, explore.SeedState{Name: fmt.Sprintf("created-%d", i), W: b.W, Legs: b.Legs, Failed: b.Failed})
 			}
 			return out
 		},
@@ -387,16 +421,16 @@ func c08Profiles(tier Tier) []*explore.Profile {
 	two := &explore.Profile{
 		Name: "two-creators", EnvCfg: ledgerEnv(2), Depth: 3, Deadline: tierDeadline(tier), Oracles: orc,
 		Seeds: func(env *world.Env) []explore.SeedState {
-			b := &uni.Builder{Env: env, W: uni.Seed(env, "sft")}
+			b := uni.SeedBuilder(env, "sft")
 			b.Must(uni.SetRole(uni.E2, uni.S, uni.NFTRoles...))
 			m := metaTuple{name: []byte("n"), roy: uni.Big(5), hash: []byte("OTHER"), attr: []byte("a"), uris: [][]byte{[]byte("u")}, q: 3}
 			b.Must(createWith(uni.E2, uni.S, m))
 			// the same with an empty hash on one side (an empty hash is a legal hash)
-			b2 := &uni.Builder{Env: env, W: uni.Seed(env, "sft")}
+			b2 := uni.SeedBuilder(env, "sft")
 			b2.Must(uni.SetRole(uni.E2, uni.S, uni.NFTRoles...))
 			m2 := metaTuple{name: []byte("n"), roy: uni.Big(5), hash: []byte{}, attr: []byte("a"), uris: [][]byte{[]byte("u")}, q: 3}
 			b2.Must(createWith(uni.E2, uni.S, m2))
-			return []explore.SeedState{{Name: "two-creators", W: b.W}, {Name: "two-creators-empty-hash", W: b2.W}}
+			return []explore.SeedState{{Name: "two-creators", W: b.W, Legs: b.Legs, Failed: b.Failed}, {Name: "two-creators-empty-hash", W: b2.W, Legs: b2.Legs, Failed: b2.Failed}}
 		},
 		Menu: func(w *world.World) []world.Action { return hopMenu(w, o, uni.S, []int64{1}, false) },
 	}
